@@ -85,6 +85,19 @@ PROPS = {
              "checks": {"quick": 1600, "thorough": 60000}, "shards": {"quick": 4, "thorough": 6}},
         ],
     },
+    "C03": {
+        "level": "exploration", "sim": True,
+        "technique": "property-based testing (rapid): generated stores mixing every ownership role; oracle = the JSON actually sent to the in-memory webhook compared for exact equality with a view recomputed from the cache snapshot",
+        "level_text": "the wire form of the hook request is what is judged (group keys, inner keys, object content); the expected view is recomputed independently from the cache snapshot taken before the sync and the accepted adoption edits of that sync",
+        "rule": ("rapid-generated cases: config (namespaced/cluster-scoped parent, core/grouped/cluster-scoped child kinds, generateSelector, composite/decorator) x seeded store (owned, orphaned, foreign-owned, non-matching, other-namespace, "
+                 "undeclared-kind, being-deleted; also on desired names) x 1-3 syncs with per-resource cache lag; non-trivial = the cache held at least one object that had to be reported and at least one that had to be left out; distinct = distinct choice sequences"),
+        "jobs": [
+            {"name": "c03-composite", "pkg": COMPOSITE, "tests": ["TestVerifC03Composite"],
+             "checks": {"quick": 3000, "thorough": 150000}, "shards": {"quick": 6, "thorough": 8}},
+            {"name": "c03-decorator", "pkg": DECORATOR, "tests": ["TestVerifC03Decorator"],
+             "checks": {"quick": 1600, "thorough": 60000}, "shards": {"quick": 4, "thorough": 6}},
+        ],
+    },
     "C08": {
         "level": "exploration", "sim": True,
         "technique": "property-based testing (rapid): generated rollouts under a fair environment; oracle = bounded-liveness (completion within 3n+6 syncs, Updated=True, one revision left) and an independent health predicate for every RolloutWaiting",
